@@ -116,6 +116,18 @@ class History:
                 out.append((t['tid'], t['u'], t['d'], t['e'], self.tlen(t)))
         return out[first:last] if last > first else []
 
+    def undoInfoS(self, u, d, e, first, last):
+        """undoInfo(first, last, specification): a transaction is selected when it matches EVERY
+        given key (None = key not in the specification; e = the extension bytes)"""
+        out = []
+        for t in self.txns[::-1]:
+            if t['status'] == 'p':
+                break
+            if (t['status'] == ' ' and (u is None or t['u'] == u) and (d is None or t['d'] == d) and
+                    (e is None or t['e'] == e)):
+                out.append((t['tid'], t['u'], t['d'], t['e'], self.tlen(t)))
+        return out[first:last] if last > first else []
+
     def lastInvalidations(self, n):
         ts = self.txns[max(0, len(self.txns) - n):] if n > 0 else []
         return [(t['tid'], [r[0] for r in t['recs']]) for t in ts]
